@@ -2,6 +2,7 @@ package props
 
 import (
 	"bytes"
+	"context"
 	"fmt"
 	"net/http"
 	"strings"
@@ -26,6 +27,7 @@ type c13Req struct {
 	BChunks  []int  `json:"body_chunks,omitempty"`
 	TruncAt  int    `json:"trunc_at,omitempty"`
 	WFailAt  int    `json:"writer_fails_from_write,omitempty"`
+	CancelRd int    `json:"context_cancelled_at_body_read,omitempty"` // k>0: the request's context ends before the k-th read of its body (the client gave up, a deadline passed); the upload itself goes on
 	body     []byte
 	payload  []byte
 	w        *sim.SimWriter
@@ -113,6 +115,9 @@ func genC13(x *Ctx) *c13Scen {
 					r.body = Gzip(raw)
 				}
 				r.BChunks = chunkPlan(tp, tp.Range(1, 3), 64)
+				if tp.Chance(200) {
+					r.CancelRd = 1 + tp.G(4)
+				}
 				if r.Kind == "post-trunc" {
 					r.TruncAt = tp.G(maxInt(1, len(r.body)-24)) // inside the compressed value, well before the trailer
 				}
@@ -319,6 +324,17 @@ func runC13(x *Ctx) {
 						t.Count("fault-btrunc")
 					}
 					hr = NewReq("POST", "/p/echo", hdr, b, int64(len(r.body)), r.ID)
+					if r.CancelRd > 0 {
+						ctx, cancel := context.WithCancel(hr.Context())
+						hr = hr.WithContext(ctx)
+						k := r.CancelRd
+						b.OnRead = func(n int) {
+							if n == k {
+								t.Count("fault-context-cancelled")
+								cancel()
+							}
+						}
+					}
 				}
 				r.w = sim.NewSimWriter(t)
 				if r.Kind == "client-gone" {
